@@ -50,6 +50,10 @@ ASSUMPTIONS = [
     'Python pickle protocol itself is trusted; only __reduce__ / from_data / set_data are modelled; pickling of '
     'Reaction / ParallelReaction / Chemical / Thermo is checked by the oracle on the real objects (observable state '
     'before vs after) and modelled only as slot-wise reconstruction (theorem slot_pickle_roundtrip)',
+    'pickling across sessions: every stream pickle (and Reaction / Thermo / Chemical pickle) is also done with a '
+    'different session default package (settings.set_thermo) at dumps time — the object\'s own package, the current '
+    'one, or another — and at loads time, and compared with the original (flows, phases, T, P, price, factors, '
+    'package, chemical IDs, Gamma); the default is restored afterwards (oracle on the real code only)',
     'the model has the behaviour WITH the patches fixes_proposed/C13-1 ... C13-8; on a tree without them the oracle '
     'reports the corresponding failures and the case ends at the failing operation',
 ]
@@ -336,6 +340,40 @@ class World:
             parts.append(f'{i}={"M" if is_multi(s) else "S"};{body}{extra};{frac(s.T)};{frac(s.P)};{frac(s.price)};'
                          f'{{{cf}}};{"-" if sid is None else sid};@{ids};v[{",".join(vparts)}]')
         return ' '.join(parts)
+
+
+_ROT = [0]
+
+
+def current_default():
+    try:
+        return tmo.settings.get_thermo()
+    except Exception:
+        return getattr(tmo.settings, '_thermo', None)
+
+
+def across_sessions(own):
+    """(default package at dumps time, default package at loads time, description) for the cross-session probes"""
+    others = [th for th in TH.values() if th is not own]
+    cur = current_default()
+    _ROT[0] += 1
+    a, b = others[_ROT[0] % len(others)], others[(_ROT[0] + 1) % len(others)]
+    return [(own, a, 'its own package was the session default, and loaded under another default'),
+            (cur if _ROT[0] % 2 else b, b if _ROT[0] % 2 else own,
+             'the session default was left as it is, and loaded under another default' if _ROT[0] % 2 else
+             'another package was the session default, and loaded with its own package as default')]
+
+
+def with_defaults(at_dump, at_load, obj):
+    """pickle.dumps under one session default, pickle.loads under another; the default is restored afterwards"""
+    prev = current_default()
+    try:
+        if at_dump is not None: tmo.settings.set_thermo(at_dump)
+        data = pickle.dumps(obj)
+        if at_load is not None: tmo.settings.set_thermo(at_load)
+        return pickle.loads(data)
+    finally:
+        if prev is not None: tmo.settings.set_thermo(prev)
 
 
 def kind_tag(s):
@@ -714,6 +752,24 @@ def apply(W: World, line: str):
         probe_independent(c, S, f'pickle/{k}:not-independent')
         if [x for x in cond_keyed(c) if x[0] != '*'] != [x for x in cond_keyed(s) if x[0] != '*']:
             raise OracleFail(f'pickle/{k}:keyed-not-equal', 'read by chemical ID the unpickled stream differs from the original')
+        # saved in one session, loaded in another: the default property package at dumps time (the stream's own
+        # package, or whatever it is now) and at loads time (every other package) must not matter
+        def seen(x):
+            f = full(x)
+            return (f[0], f[1], f[2], f[4], tuple(x.chemicals.IDs), type(x.thermo.Gamma).__name__ if not isinstance(x.thermo.Gamma, type) else x.thermo.Gamma.__name__)
+        ref = seen(s)
+        for at_dump, at_load, why in across_sessions(s.thermo):
+            W.tags.append('pickle:default-swapped')
+            try:
+                got = seen(with_defaults(at_dump, at_load, s))
+            except Exception as e:
+                raise OracleFail(f'pickle/{k}:other-session-raises-{type(e).__name__}',
+                                 f'a stream pickled while {why} could not be unpickled: {e!r}')
+            names2 = ['flows/phases/T/P', 'price', 'characterization_factors', 'package', 'chemical IDs', 'Gamma']
+            for n, x, y in zip(names2, got, ref):
+                if x != y:
+                    raise OracleFail(f'pickle/{k}:other-session-{n.split("/")[0].replace(" ", "-")}',
+                                     f'pickled while {why}: unpickled {n} = {x}, original {y}')
         S.append(c); E.new()
 
     elif op == 'fromstreams':
@@ -771,6 +827,19 @@ def apply(W: World, line: str):
             c = pickle.loads(pickle.dumps(obj))
         except Exception as e:
             raise OracleFail(f'pickleobj/{kind}:raises-{type(e).__name__}', f'pickling round trip raised {e!r}')
+        if kind in ('rxn', 'prxn', 'thermo', 'chem'):
+            W.tags.append('pickleobj:default-swapped')
+            own = TH['C'] if kind in ('rxn', 'prxn') else TH['A']
+            for at_dump, at_load, why in across_sessions(own)[:1]:
+                try:
+                    c2 = with_defaults(at_dump, at_load, obj)
+                    st2 = obj_state(kind, c2)
+                except Exception as e:
+                    raise OracleFail(f'pickleobj/{kind}:other-session-raises-{type(e).__name__}', f'pickled while {why}: {e!r}')
+                st1 = obj_state(kind, obj)
+                if st2 != st1:
+                    diff = [q for q in st1 if st2.get(q) != st1[q]]
+                    raise OracleFail(f'pickleobj/{kind}:other-session-{diff[0]}', f'pickled while {why}: differs in {diff}')
         if kind == 'cchems':
             model_line, answer, deep = cchems_lines(obj, c)
             if deep: raise OracleFail(f'pickleobj/cchems:{deep[0]}', f'unpickled CompiledChemicals: {deep[1]}')
